@@ -242,10 +242,19 @@ def case_active(ctx, shape, subaps):
             lits.append(z3.BoolVal(False))
         ctx.prove("path%d: returned cells = cells with mean >= threshold (row-major), fills = means" % pi, hyp, conj(lits), replay=rp, witness_terms=names)
         if multiple and len(coords):
-            with npx.symbolic(w):
-                ff = w.computeFillFactor(mask, coords, shape[0] // subaps)
-            ctx.prove("path%d: computeFillFactor reproduces the fills" % pi, hyp, all_eq(ff, numpy.asarray(fills, dtype=object)),
-                      replay=lambda m: _replay_ff(shape, subaps, m(mask), m(thr)), witness_terms=names)
+            # under its own exploration (any decision computeFillFactor takes on mask VALUES forks), restricted to this path
+            def go_ff(coords=coords):
+                with npx.symbolic(w):
+                    return w.computeFillFactor(mask, coords, shape[0] // subaps)
+            fpaths, fex = core.run_paths(go_ff, hyp, max_paths=64)
+            ctx.explored(fex, len(fpaths))
+            rpf = lambda m: _replay_ff(shape, subaps, m(mask), m(thr))
+            for fi, fp in enumerate(fpaths):
+                if fp.exc is not None:
+                    ctx.prove("path%d/%d: computeFillFactor raises %s" % (pi, fi, type(fp.exc).__name__), hyp + fp.pc, z3.BoolVal(False), replay=rpf, witness_terms=names, axioms=False)
+                    continue
+                ctx.prove("path%d/%d: computeFillFactor reproduces the fills" % (pi, fi), hyp + fp.pc, all_eq(fp.out, numpy.asarray(fills, dtype=object)),
+                          replay=rpf, witness_terms=names)
     ctx.prove("guard: preconditions satisfiable", pre, z3.BoolVal(False), expect="sat", kind="vacuity", axioms=False)
     # validation against the real function
     rng = rng_for("active%s%d" % (shape, subaps))
